@@ -164,21 +164,33 @@ func cmdCheck(args []string) int {
 	// A unit may serve several properties. An obligation whose label names another property (label "Cxx.…") is not
 	// part of this property's check: drop it here (generic obligations - frames, safety, unlabelled invariants and
 	// preconditions, covers - stay).
-	otherProp := regexp.MustCompile(`^C[0-9][0-9]\.`)
+	// a label may name several properties: "C09,C03.held" (one clause, checked under each of them)
+	otherProp := regexp.MustCompile(`^C[0-9][0-9](,C[0-9][0-9])*\.`)
+	labelNames := func(label, pr string) bool {
+		m := otherProp.FindString(label)
+		for _, x := range strings.Split(strings.TrimSuffix(m, "."), ",") {
+			if x == pr {
+				return true
+			}
+		}
+		return false
+	}
 	orphanLabels := map[string]bool{}
 	for _, u := range units {
 		var keep []*Obl
 		for _, o := range u.Obls {
-			if otherProp.MatchString(o.Label) && !strings.HasPrefix(o.Label, *prop+".") && u.Contract != nil && len(u.Contract.Props) > 1 {
+			if otherProp.MatchString(o.Label) && !labelNames(o.Label, *prop) && u.Contract != nil && len(u.Contract.Props) > 1 {
 				// ... but only if the property the label names checks this unit; otherwise the clause would be
 				// dropped under every property and never checked at all (a silent hole, reported as a contract error)
 				listed := false
 				for _, pr := range u.Contract.Props {
-					if strings.HasPrefix(o.Label, pr+".") {
+					if labelNames(o.Label, pr) {
 						listed = true
 					}
 				}
-				if !listed {
+				// (preconditions inherited from a callee's contract carry the callee's labels: not this unit's clauses)
+				ownClause := o.Kind != "pre" || strings.Contains(o.ID, "#pre[call.") || strings.Contains(o.ID, "#pre[dyn.")
+				if !listed && ownClause {
 					orphanLabels[fmt.Sprintf("%s: clause [%s] names a property that is not in the unit's props (%s): it would never be checked", shortKey(u.Key), o.Label, strings.Join(u.Contract.Props, " "))] = true
 				}
 				continue
